@@ -103,6 +103,11 @@ def build_layout(root: str, variant: dict):
         ("d", "sb/vocab-private", 0o755), ("f", "sb/vocab-private/secret.oct.md", SECRET, 0o600),
         ("d", "sb/vocab2", 0o755), ("f", "sb/vocab2/x.oct.md", SECRET, 0o600), ("f", "sb/vocabulary.oct.md", SECRET, 0o600),
         ("l", "sb/vocab/ln_priv", "../vocab-private"),
+        # symlink LOOPS: a non-strict resolver (Path.resolve) gives up at a loop and keeps the REST of the path lexically, so a
+        # following '..' cancels the loop and later links stay unresolved; 'peel*' hide that behind further links
+        ("l", "sb/vocab/loop", "loop"), ("l", "sb/vocab/loopA", "loopB"), ("l", "sb/vocab/loopB", "loopA"),
+        ("l", "sb/vocab/peel1", "loop/../ln_out"), ("l", "sb/vocab/peel2", "loopA/../peel1"),
+        ("l", "sb/vocab/inner/loop", "loop"),
         ("d", "proj/specs/schemas-private", 0o755), ("f", "proj/specs/schemas-private/x.oct.md", SECRET, 0o644),
         ("d", "home/.octave/standards-old", 0o755), ("f", f"home/.octave/standards-old/{GOOD_DIGEST[:16]}.oct.md", BAD_STD, 0o644),
     ]
@@ -118,7 +123,7 @@ def _schema_text(name: str) -> bytes:
             f'FIELDS:\n  NAME::["example"∧REQ]\n===END===\n').encode()
 
 
-DIR_SEGS = ["docs", "dir", "dir/deep", "newdir", ".", "..", "ln_dir_in", "ln_dir_out", "dangling_dir", "chain1", "loop",
+DIR_SEGS = ["docs", "dir", "dir/deep", "newdir", ".", "..", "ln_dir_in", "ln_dir_out", "dangling_dir", "chain1", "loop", "loop/..",
             "docs/ln_up", "docs/ln_out", "", "vocab", "~", "$HOME", "${HOME}", "~root", "~/ln_out", "~/plain", "~/plain/..", "$OVHOME/ln_out", "\uff44\uff4f\uff43\uff53", "cafe\u0301", "\u212bdir", "\uff0e\uff0e", "\u2024\u2024"]
 FINAL_SEGS = ["a.oct.md", "new.oct.md", "new.octave", "new.md", "b.md", "c.octave", "top.oct.md", "new.txt", "notes.txt",
               "new.oct.md.bak", "new.tar.md", "new.oct.MD", "NEW.OCT.MD", "new.md.", "new", "new.oct.md/", "ln_file_in.oct.md",
@@ -417,15 +422,24 @@ def run_path_case(case: dict, stats: Stats | None = None) -> dict:
     if not cl["must_refuse"] and cl["abs"]:
         tgt = cl["abs"]
         tdir = os.path.dirname(tgt)
+
+        def own_transient(rp_):
+            """A name in the target's own directory that did NOT exist before the call: the call's staging file, or a lock
+            file it creates and removes (r7e).  Entries that were there before -- other documents, other people's files -- are
+            never the call's to touch.  (Pre-existing *.tmp names stay admitted: reclaiming an orphaned staging file is legal.)"""
+            if os.path.dirname(rp_) != tdir:
+                return False
+            return rp_.endswith(".tmp") or os.path.relpath(rp_, root) not in snap0
+
         for n, lp, rp, _ in eff:
             if n in ("open_r", "read"):
-                if rp != tgt and rp != tdir and lp not in allowed_inputs and not (rp.endswith(".tmp") and os.path.dirname(rp) == tdir):
+                if rp != tgt and rp != tdir and lp not in allowed_inputs and not own_transient(rp):
                     V("R2.read-other", f"accepted call read {_rel(rp, root)}, which is not the target {_rel(tgt, root)}")
                     break
             elif n in ("write", "fchmod", "ftruncate"):
                 continue  # fd-based: judged at the open
             else:
-                ok = rp == tgt or (os.path.dirname(rp) == tdir and rp.endswith(".tmp")) or (n == "mkdir" and under(tgt, rp))
+                ok = rp == tgt or own_transient(rp) or (n == "mkdir" and under(tgt, rp))
                 if n in ("replace.dst", "rename.dst"):
                     ok = rp == tgt
                 if not ok:
@@ -958,7 +972,12 @@ URI_SEGS = ["v.oct.md", "inner/w.oct.md", "inner/../v.oct.md", "../docs/a.oct.md
             "../vocab/v.oct.md", "../vocab/../../out/secret.txt", "~/secret", "file:///etc/passwd", "%2e%2e/docs/a.oct.md",
             "..\\docs\\a.oct.md", "inner/../ln_out/secretdir/s.oct.md", "L" * 300,
             "../vocab-private/secret.oct.md", "../vocab2/x.oct.md", "../vocabulary.oct.md", "ln_priv/secret.oct.md",
-            "inner/../../vocab-private/secret.oct.md", "../vocab-private", "../vocab2/../vocab/v.oct.md"]
+            "inner/../../vocab-private/secret.oct.md", "../vocab-private", "../vocab2/../vocab/v.oct.md",
+            # through symlink loops (see the layout)
+            "loop/../ln_out/secret.txt", "loop/../ln_secret.oct.md", "loopA/../ln_priv/secret.oct.md", "loop/x.oct.md", "loop",
+            "peel1/secret.txt", "peel2/secret.oct.md", "loop/../v.oct.md", "loop/../loopA/../ln_out/secret.oct.md",
+            "inner/loop/../../ln_sibling/a.oct.md", "inner/loop/../w.oct.md", "loop/../../vocab-private/secret.oct.md",
+            "loop/../ln_out/secretdir/s.oct.md"]
 
 
 def run_uri_case(case: dict, stats: Stats | None = None) -> dict:
